@@ -1,9 +1,10 @@
 package c12
 
 // C12: share-group acknowledgements are single, ordered and honoured.
-// Part N (engine N, scenarios in ./sscen) runs here; the summary of parts Q/Q2
-// (in-package harness hooks/inpkg/c12_kgo_test.go, run first by run.sh) is
-// merged into the same evidence file just before it is written.
+// Part N (engine N, scenarios in ./sscen) runs here; the summaries of parts Q/Q2
+// (in-package harness hooks/inpkg/c12_kgo_test.go) and S (./s, engine S over the
+// extracted acknowledgement core), both run first by run.sh, are merged into the
+// same evidence file just before it is written.
 
 import (
 	"encoding/json"
@@ -26,6 +27,11 @@ func mergeQ(r *ev.Run) {
 		ev.InfraError("C12Q_OUT not set: run checks/c12/run.sh (parts Q/Q2 run first)")
 	}
 	nrun.MergeSummary(r, path, "q")
+	spath := os.Getenv("C12S_OUT")
+	if spath == "" {
+		ev.InfraError("C12S_OUT not set: run checks/c12/run.sh (part S runs before part N)")
+	}
+	nrun.MergeSummary(r, spath, "s")
 	b, err := os.ReadFile(path)
 	if err != nil {
 		ev.InfraError("summary of part Q: %v", err)
@@ -47,6 +53,7 @@ func mergeQ(r *ev.Run) {
 	for _, x := range s.Samples {
 		r.Sample(x)
 	}
+	r.Assume("part S: struct types are stubs carrying only the fields the extracted functions use; the sender thread transcribes shareAck's drain/build/send/response steps (success path); the fetch loop's wake-ups are no-ops (the sender drains on its own schedule)")
 	r.Assume("parts Q/Q2: the harness builds shareConsumer/source/shareCursor/shareAckSlab values by hand (no client); the fetch loop is never started", "part Q2: the sender's response step transcribes shareAck's success path (renew statuses reset, pending counter decremented by the number of drained entries)")
 }
 
@@ -56,7 +63,8 @@ func TestC12(t *testing.T) {
 		QuickTime: 65 * time.Second, ThorTime: 16 * time.Minute,
 		Rule: "part N (engine N): every order of application calls (PollRecords with a record limit, Record.Ack accept/release/reject/renew, renew-then-terminal, terminal-after-terminal, MarkAcks, FlushAcks, unacknowledged records left to the next poll and to Close), ShareFetch/ShareAcknowledge/heartbeat frame deliveries, timer ticks and injected faults (connection killed before a ShareFetch/ShareAcknowledge reaches the broker, SHARE_SESSION_NOT_FOUND / INVALID_SHARE_SESSION_EPOCH answers, connection killed after the broker handled a ShareAcknowledge) within k deviations of the default order, for one member on a plain and on a compacted partition (holes inside an acquired range), with a leader move, and with a second member joining and leaving; distinct = distinct terminal observations (records polled per member with delivery counts, acknowledgement batches seen by the broker with their outcome, callback results, what a later member still receives)" +
 			" || part Q (in-package, pkg/kgo): every list of pending entries in insertion order (offsets 0..5, each offset at most twice, status unset/accept/release/reject/renew per record) with every ordered set of at most two disjoint gap ranges inside offsets 0..7 avoiding the entries (type gap or release), queued with appendAck/enqueueGaps, drained with drainAllShareAcks, built with buildAckRanges and turned into wire batches as shareAck does; a second space assigns every (source, session epoch) stamp out of 2x2 to each record and gap and goes through filterStaleEntries; reference = offset->type table; distinct = distinct wire outputs" +
-			" || part Q2: every merge of the user-side steps (tryAck CAS, appendAck) of every script of up to 3 (thorough 4) Ack calls over two records with the sender-side steps (drain, build+send, response handling) of two rounds; reference = the status machine of the docs; distinct = distinct request histories",
+			" || part Q2: every merge of the user-side steps (tryAck CAS, appendAck) of every script of up to 3 (thorough 4) Ack calls over two records with the sender-side steps (drain, build+send, response handling) of two rounds; reference = the status machine of the docs; distinct = distinct request histories" +
+			" || part S (engine S): tryAck, appendAck, drainAcks, buildAckRanges, subtractPendingAcks, enqueueCallback, drainCallbacks, FlushAcks and ring.go extracted from the tree, every mutex/cond/atomic/channel operation a scheduling point, all schedules up to preemption bound 1 (thorough 2) of two harnesses: two acking threads of which one calls FlushAcks after its Ack plus a sender with three drain/build/send/response rounds (FlushAcks may return only after the callbacks of all acks whose Ack call had returned before; counter zero and every ack reported at quiescence; no deadlock), and renew/accept/reject on one record plus a second record (each offset leaves with a final type in at most one request)",
 		Assume: []string{"kfake is the broker (acquisition, validation of acknowledgement batches, session handling)", "synctests build of xsync for part N", "goroutine micro-interleavings inside one event are the Go runtime's (part Q2 enumerates the internal steps of the acknowledgement path at CAS / append / drain / build / response granularity; interleavings INSIDE appendAck are not explored)", "an identical re-send of a ShareAcknowledge whose response never arrived (transport retry) is the same acknowledgement, not a second one; such re-sends are counted in counter_ack_request_resent_after_lost_response"},
 	})
 }
